@@ -158,7 +158,9 @@ func isOpen(ch <-chan struct{}) bool {
 	}
 }
 
-var leakMarkers = []string{"diam.(*conn).serve", "closeNotify.func", "sm.(*Client).watchdog"}
+// leakMarkers: the goroutines the statement names, and any goroutine started by the library's
+// connection code (all goroutines of the harness are started from this package).
+var leakMarkers = []string{"diam.(*conn).serve", "closeNotify.func", "sm.(*Client).watchdog", "created by github.com/fiorix/go-diameter/v4/diam."}
 
 // leaked polls until no goroutine of the library is left (or the deadline passes).
 func leaked(d time.Duration) string {
